@@ -55,7 +55,7 @@ def _read_contract(cid, reqs):
         id=cid, func=LD + ".read", call="d.read(" + ", ".join(repr(r) for r in reqs) + ")", params=params,
         requires=["spec.encap.le(head, 8, 4) == 0"],
         setup=CONN + [f"t = spec.env.Transport({replies})", "d._sock = t"],
-        ensures=ens + [f"len(t.sent) == {1 if valid else 0}"], props=["C03", "C01"] + (["C13"] if len(valid) > 1 else []), max_paths=20000)
+        ensures=ens + [f"len(t.sent) == {1 if valid else 0}"], props=["C03", "C01"] + (["C13", "C11"] if len(valid) > 1 else []), max_paths=20000)
 
 
 _read_contract("read.one.d", ["d"])
@@ -128,7 +128,7 @@ def _write_contract(cid, reqs):
         id=cid, func=LD + ".write", call="d.write(" + ", ".join(args) + ")", params=params,
         requires=["spec.encap.le(head, 8, 4) == 0"],
         setup=CONN + [f"t = spec.env.Transport({replies})", "d._sock = t"],
-        ensures=ens + [f"len(t.sent) == {1 if valid else 0}"], props=["C03", "C02"] + (["C13"] if len(valid) > 1 else []), max_paths=20000)
+        ensures=ens + [f"len(t.sent) == {1 if valid else 0}"], props=["C03", "C02"] + (["C13", "C11"] if len(valid) > 1 else []), max_paths=20000)
 
 
 _write_contract("write.one.d", ["d"])
@@ -136,6 +136,8 @@ _write_contract("write.one.string", ["s"])
 _write_contract("write.two", ["d", "arr[1]{2}"])
 _write_contract("write.mixed", ["d", "nope", "arr[0]{3}", "d"])
 _write_contract("write.all_invalid", ["nope", "d "])
+_write_contract("write.one_valid_one_invalid", ["d", "nope"])        # a multi-request call in which one write ends up alone
+_write_contract("write.one_invalid_one_valid", ["arr[0]{3}", "arr[1]{2}"])
 
 # several bits of one word in one call: merged into ONE read-modify-write, every request gets its result
 contract(
